@@ -35,7 +35,7 @@ func drawC13(rt *rapid.T) interface{} {
 	if sc.Kind == KPriQ {
 		sc.Cap = rapid.SampledFrom([]int{1, 2, 3, 8}).Draw(rt, "pcap")
 	}
-	nc := rapid.IntRange(1, 4).Draw(rt, "nc")
+	nc := rapid.IntRange(1, hx.Pick(4, 6)).Draw(rt, "nc")
 	for i := 0; i < nc; i++ {
 		n := rapid.IntRange(1, 3).Draw(rt, "npop")
 		var ops []string
@@ -366,6 +366,7 @@ func TestC13(t *testing.T) {
 		Stubs: []string{"sync (simsync: Mutex, Cond with FIFO Signal)", "goroutine scheduling (simrt baton scheduler)", "time (simtime; unused here)"},
 		Rule: "scenario = queue kind x capacity x 1-4 consumer programs x 1-3 producer programs (add/prior/ctrl/close/try-close) x scheduler knobs and tape, all drawn by rapid; " +
 			"non-trivial = at least 2 tasks and 1 context switch; distinct = distinct event-log hash (schedule decisions + every operation result)",
+		Probes: []string{"close", "consumers-blocked>=2-before-producers", "priq-signal-received", "priq-pop-empty-after-signal", "close-waiter-released"},
 		Assumptions: []string{"simsync.Cond.Signal wakes the longest waiter (as the runtime's ticket-ordered notifyList does)",
 			"memory is sequentially consistent between preemption points (one task runs at a time)"},
 	})
